@@ -307,6 +307,63 @@ NEEDS = {
             'a fast accepted check, then a slow one in one run only',
     'C18h': 'sequential ddmin writes the output in a background thread: '
             'large output, fast command, two consecutive accepted subsets',
+    # sixth wave
+    'C02g': 'Producer folds local and global proposals into one helper that '
+            'returns only the local ones for mutators having both: a command '
+            'accepting a global proposal (un-quoting a symbol everywhere, a '
+            'push/pop pair) while rejecting every local one',
+    'C02h': 'ddmin_passes disables binary reduction through the shared '
+            'option namespace: hybrid, a block removable only by binary '
+            'reduction that ddmin chunks cannot reach',
+    'C04g': 'progress bar percentage divides by the node count: terminal '
+            'stdout, -v, hierarchical/hybrid, a sweep on an input with zero '
+            'nodes',
+    'C04h': 'match-string validation refactored into a helper whose second '
+            'result overwrites the first: --match-out absent from the golden '
+            'output, --match-err present',
+    'C06g': 'special-file guard not os.path.isfile() also true for a missing '
+            'output: the FIRST rewrite is in place (truncate and fill)',
+    'C06h': 'ddmin writes the output from a thread pool, writers share the '
+            'pid-named temporary file: two acceptances closer than one write',
+    'C07g': 'Node.__str__ iterative with a textual fix-up of "( " and " )": '
+            '--pretty-print, a flat list with a literal / quoted symbol / '
+            'comment containing "( " or " )"',
+    'C07h': 'checking renderer uses writelines without separators: adjacent '
+            'top-level atoms or literals',
+    'C08g': 'CR LF collapsed to LF before lexing: a string literal or quoted '
+            'symbol spanning a CR LF line end',
+    'C08h': 'literals scanned with a regex whose escape needs a preceding '
+            'ordinary character: a literal starting with an escaped quote',
+    'C09g': 'match strings compared with re.search: a match string with '
+            'regex metacharacters',
+    'C09h': 'command re-split with shlex.split(" ".join(cmd)): a command '
+            'argument with blanks, quotes, backslashes or empty',
+    'C11g': 'node ids from a per-process itertools.count: a pending '
+            'simplification applied by another worker whose counter collides '
+            'with the id of the replaced node',
+    'C11h': 'apply_simp drops entries with k != v false: identity key whose '
+            'replacement numeral spells the id of the node',
+    'C12g': 'dfs expands a node object that occurs several times only once: '
+            'trees with shared list nodes',
+    'C12h': 'ids handed out from a per-process block of 512 that a fork '
+            'inherits: trees built on both sides of a fork compare equal',
+    'C14g': 'theory detection stops scanning at the first assert: every '
+            'declaration of a theory after the first assert, no group option',
+    'C14h': 'ddmin pre-filters its mutators once against the original input: '
+            'a mutator that only applies after another simplification',
+    'C15g': 'EliminateVariable caches the occurrences of its target per '
+            'mutator object: the equality visited again after another '
+            'accepted step removed an occurrence',
+    'C15h': 'pickled leaf length counted in characters in __getstate__: '
+            'non-ASCII literal, proposals applied in a worker',
+    'C16g': 'every remaining str.* operator typed String: str.to_re',
+    'C16h': 'IntroduceFreshVariable remembers the sort between filter and '
+            'global_mutations: ddmin with granularity > 1, mixed sorts, a '
+            'compound sort last',
+    'C17g': 'define-fun parameter sorts written into the global name-keyed '
+            'table: a parameter named like a constant of another width, '
+            'extract of zero_extend',
+    'C17h': 'FPShortSort keyed on eb + sb: (_ FloatingPoint 6 10)',
 }
 # checks of other properties that also see a change
 ALSO = {'C02c': ['C13'], 'C02d': ['C14'], 'C06d': ['C02'], 'C01c': ['C07'], 'C11c': ['C15'], 'C10d': ['C04'], 'C17c': ['C16'],
@@ -315,7 +372,9 @@ ALSO = {'C02c': ['C13'], 'C02d': ['C14'], 'C06d': ['C02'], 'C01c': ['C07'], 'C11
         'C13a': ['C12'], 'C11b': ['C17'], 'C17b': ['C11'],
         'C13e': ['C12'], 'C01f': ['C09'], 'C09e': ['C01'], 'C02f': ['C01'],
         'C03f': ['C05'], 'C11f': ['C13'], 'C01g': ['C06'],
-        'C10g': ['C01'], 'C10h': ['C04'], 'C18h': ['C06']}
+        'C10g': ['C01'], 'C10h': ['C04'], 'C18h': ['C06'],
+        'C04h': ['C10'], 'C06h': ['C18'], 'C15h': ['C12'], 'C12h': ['C13'],
+        'C11g': ['C12'], 'C17g': ['C16'], 'C16h': ['C15']}
 
 
 def sh(cmd, timeout=7200):
